@@ -123,7 +123,7 @@ scalar_t affine_wlearner_t::do_fit(const dataset_t& dataset, const indices_t& sa
                   });
 
     // OK, return and store the optimum feature across threads
-    const auto& best = min_reduce(caches);
+    const auto& best = min_reduce_feature(caches);
 
     log_info('[', type_id(), "]: ", std::fixed, std::setprecision(8), " === affine(feature=", best.m_feature, "|",
              (best.m_feature >= 0 ? dataset.feature(best.m_feature).name() : string_t("N/A")),
